@@ -1,12 +1,129 @@
 import PpciVerif.Model.Hex
 import PpciVerif.Spec.IHex
+import PpciVerif.Proofs.Hex
+import PpciVerif.Proofs.HexFile
+/-!
+# C18 — Intel HEX files round-trip and are standard-conforming
+
+Property theorems only.  Model: `Model.Hex` (hand model of `ppci/format/hexfile.py`
+after the repair commit, tied by correspondence; `Model.Hex.Legacy` = the code before
+it).  Spec: `Spec.IHex` (independent reader, memory image `cells`, normal form `NF`,
+`mergeSpec`).  `ValidSet rs`: every region non-empty, bytes, end ≤ 2^32, pairwise
+non-overlapping.  No bound on the number or size of regions anywhere.
+-/
 namespace Props.C18
 deriving instance DecidableEq for Except
-open Model.Hex Spec.IHex
+open Spec.IHex Proofs.Hex
+open Model.Hex (HexFile build save load Legacy.build Legacy.save)
 
-/-- witness: the pre-repair `check` loses the region at 8 when 4 is added last -/
-example : Legacy.build [] [(0, [0,1,2,3]), (8, [8,9,10,11]), (4, [4,5,6,7])] = .ok [(0, [0,1,2,3,4,5,6,7])] := by decide
-example : mergeSpec [(0, [0,1,2,3]), (8, [8,9,10,11]), (4, [4,5,6,7])] = [(0, [0,1,2,3,4,5,6,7,8,9,10,11])] := by decide
+/-! ### (a) merging is independent of the insertion order and equals the specification -/
 
-theorem stub : True := trivial
+/-- `add_region` of the regions of a valid set in ANY order `p` ends in `mergeSpec rs`. -/
+theorem add_region_any_order (rs p : List Region) (hv : ValidSet rs) (hp : p.Perm rs) :
+    build [] p = .ok (mergeSpec rs) :=
+  build_eq_mergeSpec hv hp
+
+/-- `mergeSpec rs` is in normal form (ascending, non-empty, separated by gaps) and has the
+    memory image of `rs` … -/
+theorem mergeSpec_is_normal_form (rs : List Region) (hv : ValidSet rs) :
+    NF (mergeSpec rs) ∧ (cells (mergeSpec rs)).Perm (cells rs) :=
+  mergeSpec_spec hv
+
+/-- … and it is the ONLY such list: normal forms with the same memory image are equal.
+    (So `mergeSpec` is fixed by its specification, not by how it is computed.) -/
+theorem normal_form_unique (l1 l2 : List Region) (h1 : NF l1) (h2 : NF l2)
+    (hc : (cells l1).Perm (cells l2)) : l1 = l2 :=
+  nf_unique l1 l2 h1 h2 hc
+
+/-- a built file satisfies the hypotheses of (b)–(d) -/
+theorem built_file_wf (rs : List Region) (hv : ValidSet rs) (start : Nat) (hs : start < 4294967296) :
+    WF ⟨mergeSpec rs, start⟩ := by
+  obtain ⟨h1, h2⟩ := mergeSpec_spec hv
+  exact ⟨h1, regionOK_of_cellsOK (cellsOK_perm h2 (validSet_cellsOK hv)) (nf_nonempty h1), hs⟩
+
+/-! ### (b) every emitted line is a well-formed record -/
+
+/-- `save` succeeds and every line satisfies the record grammar `:LLAAAATT<data>CC` with the
+    right byte count and checksum (`parseRecord` checks exactly these) and has `Shape`: at most
+    30 data bytes, type 00, or load offset 0 and type 01 (LL=0) / 04 (LL=2) / 05 (LL=4). -/
+theorem save_lines_are_records (h : HexFile) (hw : WF h) :
+    ∃ lines, save h = .ok lines ∧
+      ∀ l ∈ lines, ∃ r, parseRecord l = some r ∧ Shape r := by
+  refine ⟨_, save_eq hw, ?_⟩
+  intro l hl
+  obtain ⟨hrec, hmem, rfl⟩ := List.mem_map.mp hl
+  have hwf := (fileRecs_spec hw).2 hrec hmem
+  refine ⟨toSpec hrec, parseRecord_toLine hwf, ?_⟩
+  exact fileRecs_shape hw hrec hmem
+
+/-! ### (c) an independent reader decodes the file to the same bytes at the same addresses -/
+
+/-- `Spec.IHex.read (save h)` = the cells of `h.regions` in ascending order, each address once,
+    and the start address (absent iff 0). -/
+theorem reader_decodes_saved_file (h : HexFile) (hw : WF h) :
+    ∃ lines, save h = .ok lines ∧
+      Spec.IHex.read lines = some ⟨cells h.regions, if h.start = 0 then none else some h.start⟩ :=
+  ⟨_, save_eq hw, read_save hw⟩
+
+/-! ### (d) load ∘ save = id -/
+
+theorem load_of_save (h : HexFile) (hw : WF h) : ∃ lines, save h = .ok lines ∧ load lines = .ok h :=
+  ⟨_, save_eq hw, load_save hw⟩
+
+/-! ### the property, end to end -/
+
+/-- For every valid region set, every insertion order and every 32-bit start address: the file
+    built by `add_region` holds `mergeSpec rs`; `save` succeeds; the independent reader sees the
+    image of `rs` (same bytes at the same addresses, up to the order in which `rs` lists them)
+    and the start address; `load` gives the file back. -/
+theorem hexfile_roundtrip (rs p : List Region) (start : Nat) (hv : ValidSet rs) (hp : p.Perm rs)
+    (hs : start < 4294967296) :
+    ∃ regs lines img, build [] p = .ok regs ∧ save ⟨regs, start⟩ = .ok lines ∧
+      Spec.IHex.read lines = some img ∧ img.mem.Perm (cells rs) ∧
+      img.mem.Pairwise (fun x y => x.1 < y.1) ∧ img.start.getD 0 = start ∧
+      load lines = .ok ⟨regs, start⟩ := by
+  have hw := built_file_wf rs hv start hs
+  obtain ⟨h1, h2⟩ := mergeSpec_spec hv
+  refine ⟨mergeSpec rs, _, _, build_eq_mergeSpec hv hp, save_eq hw, read_save hw, h2,
+    cells_sorted _ (nf_before h1), ?_, load_save hw⟩
+  by_cases h0 : start = 0 <;> simp [h0]
+
+/-! ### non-vacuity and witnesses -/
+
+/-- the hypotheses are satisfiable by a set with an adjacency, a 64 KiB crossing and a region
+    that ends at 2^32 -/
+example : ValidSet [(0xFFFE, [1, 2, 3]), (8, [8, 9]), (0x10001, [4]), (0xFFFFFFFE, [5, 6])] := by
+  refine ⟨?_, ?_⟩
+  · intro r hr
+    simp only [List.mem_cons, List.not_mem_nil, or_false] at hr
+    rcases hr with rfl | rfl | rfl | rfl <;> simp
+  · simp [Disjoint]
+
+example : mergeSpec [(0xFFFE, [1, 2, 3]), (8, [8, 9]), (0x10001, [4]), (0xFFFFFFFE, [5, 6])]
+    = [(8, [8, 9]), (0xFFFE, [1, 2, 3, 4]), (0xFFFFFFFE, [5, 6])] := by decide
+
+example : save ⟨[(0xFFFE, [1, 2, 3, 4])], 0x12345678⟩ = .ok
+    [":020000040000fa".toList, ":04fffe0001020304f5".toList, ":0400000512345678e3".toList, ":00000001ff".toList] := by
+  decide +kernel
+
+/-- defect 1 (before the repair): adding the bridging region last loses the region at 8 … -/
+example : Legacy.build [] [(0, [0, 1, 2, 3]), (8, [8, 9, 10, 11]), (4, [4, 5, 6, 7])]
+    = .ok [(0, [0, 1, 2, 3, 4, 5, 6, 7])] := by decide
+/-- … which is not the merged set (so `add_region_any_order` is false for the old code) … -/
+example : Legacy.build [] [(0, [0, 1, 2, 3]), (8, [8, 9, 10, 11]), (4, [4, 5, 6, 7])]
+    ≠ .ok (mergeSpec [(0, [0, 1, 2, 3]), (8, [8, 9, 10, 11]), (4, [4, 5, 6, 7])]) := by decide
+/-- … while another order of the same set gave the right answer: order dependence. -/
+example : Legacy.build [] [(0, [0, 1, 2, 3]), (4, [4, 5, 6, 7]), (8, [8, 9, 10, 11])]
+    = .ok (mergeSpec [(0, [0, 1, 2, 3]), (8, [8, 9, 10, 11]), (4, [4, 5, 6, 7])]) := by decide
+/-- the repaired code on the same input -/
+example : build [] [(0, [0, 1, 2, 3]), (8, [8, 9, 10, 11]), (4, [4, 5, 6, 7])]
+    = .ok [(0, [0, 1, 2, 3, 4, 5, 6, 7, 8, 9, 10, 11])] := by decide
+
+/-- defect 2 (before the repair): `save` drops the start address — the reader finds none and
+    `load` returns 0 -/
+example : (Legacy.save ⟨[(0x8000, [0xaa])], 0x12345678⟩).toOption.bind Spec.IHex.read
+    = some ⟨[(0x8000, 0xaa)], none⟩ := by decide +kernel
+example : (Legacy.save ⟨[(0x8000, [0xaa])], 0x12345678⟩).toOption.map load
+    = some (.ok ⟨[(0x8000, [0xaa])], 0⟩) := by decide +kernel
+
 end Props.C18
